@@ -9,7 +9,9 @@ import (
 
 	"github.com/libp2p/go-libp2p/core/network"
 	"github.com/libp2p/go-libp2p/core/peer"
+	ma "github.com/multiformats/go-multiaddr"
 
+	pb "github.com/libp2p/go-libp2p-kad-dht/pb"
 	"github.com/libp2p/go-libp2p-kad-dht/qpeerset"
 )
 
@@ -150,6 +152,11 @@ func VfLookupRun() {
 		d.routingTable.TryAddPeer(all[i], true, false)
 	}
 	target := vfTargetKey()
+	if vfParam("DIVERSITY") == 1 {
+		// the Amino setting: at most 2 peers of an IP group per bucket, 3 in the table;
+		// responses are filtered with the table-wide limit
+		d.rtPeerDiversityFilter = NewRTPeerDiversityFilter(e.host, 2, 3)
+	}
 	honest := vfParam("HONEST") == 1
 	cancelAt := -1
 	if vfParam("CANCEL") == 1 && vfBool("cancelDuringLookup") {
@@ -198,7 +205,13 @@ func VfLookupRun() {
 				}
 			}
 			for i := 0; i < K && i < len(sorted); i++ {
-				out = append(out, &peer.AddrInfo{ID: sorted[i]})
+				ai := &peer.AddrInfo{ID: sorted[i]}
+				if vfParam("DIVERSITY") == 1 {
+					// every named peer has an address in the same /16: as many as the
+					// table-wide limit of the diversity filter admits (K <= 3)
+					ai.Addrs = []ma.Multiaddr{vfAddr16(vfIndexOf(all, sorted[i]))}
+				}
+				out = append(out, ai)
 			}
 		} else {
 			n := vfChoose("answerLen", R+1)
@@ -320,5 +333,66 @@ drain:
 	vfReach("lookup/end")
 }
 
+// vfAddr16: /ip4/185.10.0.<i+1>/tcp/4001
+func vfAddr16(i int) ma.Multiaddr {
+	a, err := ma.NewMultiaddrBytes([]byte{4, 185, 10, 0, byte(i + 1), 6, 0x0f, 0xa1})
+	if err != nil {
+		panic(err)
+	}
+	return a
+}
+
+//verif:intercept VfGetClosestPeers (*github.com/libp2p/go-libp2p-kad-dht/netsize.Estimator).NetworkSize = vfModelNetworkSize
+//verif:intercept VfGetClosestPeers (*github.com/libp2p/go-libp2p-kad-dht/netsize.Estimator).Track = vfModelTrack
+
+// VfGetClosestPeers (C01): the public GetClosestPeers, completed or interrupted
+// by the caller at an arbitrary request: no returned peer had failed a dial or a
+// request when the search ended, and no peer is returned twice or is the local
+// node.
+func VfGetClosestPeers() {
+	P := vfParam("P")
+	vfHashBits(vfParam("W"))
+	vfHashFixed()
+	e, ids, _ := vfClientEnv(P, P)
+	d := e.dht
+	ctx, cancel := context.WithCancel(context.Background())
+	defer cancel()
+	cancelAt := -1
+	if vfBool("callerCancels") {
+		cancelAt = vfChoose("cancelAtRequest", P)
+	}
+	failed := map[peer.ID]bool{}
+	calls := 0
+	e.sender.reply = func(rctx context.Context, p peer.ID, req *pb.Message) (*pb.Message, error) {
+		if req.Type != pb.Message_FIND_NODE {
+			return nil, errors.New("unexpected request")
+		}
+		if calls == cancelAt {
+			cancel()
+		}
+		calls++
+		if rctx.Err() == nil && vfBool("peer.fails") {
+			failed[p] = true // a genuine failure, not one caused by the cancellation
+			return nil, errors.New("rpc failed")
+		}
+		if rctx.Err() != nil {
+			return nil, rctx.Err()
+		}
+		return pb.NewMessage(pb.Message_FIND_NODE, nil, 0), nil
+	}
+	got, _ := d.GetClosestPeers(ctx, string(vfHashInput("key", nil, 8)))
+	vfWaitIdle()
+	seen := map[peer.ID]bool{}
+	for _, p := range got {
+		vfAssert(!failed[p], "closest/no-returned-peer-had-failed-a-request")
+		vfAssert(!seen[p] && p != d.self, "closest/distinct-and-never-self")
+		seen[p] = true
+		vfAssert(vfIndexOf(ids, p) >= 0, "closest/only-learned-peers")
+	}
+	vfAssert(vfLiveGoroutines() == 1, "closest/no-goroutine-left-behind")
+	vfReach("closest/end")
+}
+
+var _ = vfRegister("VfGetClosestPeers", VfGetClosestPeers)
 var _ = vfRegister("VfQueryPeer", VfQueryPeer)
 var _ = vfRegister("VfLookupRun", VfLookupRun)
